@@ -47,7 +47,16 @@ def check(m, run):
     with run.corroborating(wn_ok, 'WN2', rules=('AL7.crossing-rule',)):
         al7(m, run)
     c15.wn1(m, run)
-    rs1(m, run)
+    # the ray statuses are decided on rays of the real class with exact coordinates (RS2); the rule that reads which facts hold at
+    # each return corroborates
+    n_rs = len(run.obs)
+    try:
+        _sdv.rs2(m, run)
+    except AnalysisError as ex:
+        run.error(str(ex))
+    rs_ok = len(run.obs) > n_rs and all(o.ok for o in run.obs[n_rs:])
+    with run.corroborating(rs_ok, 'RS2', rules=('RS1.ray-status',)):
+        rs1(m, run)
     tf1(m, run, [m.func(k) for k in ('ray.intersect', 'ray._intersect2d', 'ray._intersect3d', '_voxelize.find_inouts_st', '_voxelize.find_inouts_mp')])
     run.floor('AG5.serial-parallel', 4, 'voxelize and container tessellate')
     run.floor('AL7.crossing-rule', 4, 'two edge classes x (range test, side test)')
